@@ -153,6 +153,19 @@ def run_S2(chk):
     guard = [n for n in A.walk_local(f.node) if isinstance(n, ast.If) and A.text(n.test) in ("n_c == a.config.sym.zero()", "n_c == b.config.sym.zero()")]
     okg = bool(guard) and any(isinstance(x, ast.Call) and A.call_name(x) == "_meta_vdot" for b_ in guard[0].body for x in ast.walk(b_)) and \
         any(isinstance(b_, ast.Assign) and A.text(b_.value) == "()" for b_ in guard[0].orelse)
+    if not okg:
+        # the guard clause form: `if n_c != zero: return backend.vdot(.., ())` (or `meta = ()` and no pairing in that branch), pairing after it
+        g2 = [n for n in A.walk_local(f.node) if isinstance(n, ast.If) and A.text(n.test) in ("n_c != a.config.sym.zero()", "n_c != b.config.sym.zero()",
+                                                                                             "not n_c == a.config.sym.zero()", "not n_c == b.config.sym.zero()")]
+        if g2:
+            br = g2[0].body
+            empty = any((isinstance(b_, ast.Return) and b_.value is not None and any(isinstance(x, ast.Tuple) and not x.elts for x in ast.walk(b_.value)))
+                        or (isinstance(b_, ast.Assign) and A.text(b_.value) == "()") for b_ in br)
+            no_pairing = not any(isinstance(x, ast.Call) and A.call_name(x) == "_meta_vdot" for b_ in br for x in ast.walk(b_))
+            leaves = isinstance(br[-1], ast.Return) or bool(g2[0].orelse)
+            pairing_elsewhere = any(isinstance(x, ast.Call) and A.call_name(x) == "_meta_vdot" for x in ast.walk(f.node))
+            okg = empty and no_pairing and leaves and pairing_elsewhere
+            guard = g2
     chk.verdict("S2", (f, guard[0] if guard else f.node), "vdot: blocks are paired only when the charges cancel", True if okg else False,
                 "vdot(): the overlap of tensors whose total charges do not cancel is not forced to zero")
     # trace: unchanged
@@ -315,8 +328,16 @@ def run_S2(chk):
             subj = sorted({A.text(x) for x in ast.walk(g.test) if isinstance(x, ast.Attribute) and x.attr == "n" and A.text(x).endswith("struct.n")})
             if len(subj) != subjects:
                 continue
+            def with_zero(test, nsym):
+                """`<..>.sym.zero()` is the tuple of nsym zeros"""
+                class Z(ast.NodeTransformer):
+                    def visit_Call(self, node):
+                        if A.text(node).endswith(".sym.zero()"):
+                            return ast.copy_location(ast.Tuple(elts=[ast.Constant(0) for _ in range(nsym)], ctx=ast.Load()), node)
+                        return self.generic_visit(node)
+                return ast.fix_missing_locations(Z().visit(copy.deepcopy(test)))
             try:
-                ok = all(bool(evaluate(g.test, dict(zip(subj, vals)))) is want for vals, want in cases)
+                ok = all(bool(evaluate(with_zero(g.test, len(vals[0])), dict(zip(subj, vals)))) is want for vals, want in cases)
             except CannotEvaluate:
                 continue
             if ok:
@@ -749,8 +770,22 @@ def run_WH(chk, rule):
     chk.require(calls, "eigh_with_truncation: call of truncation_mask not found")
     par = A.enclosing_map(f.node)
     st = A.stmt_of(calls[0], par)
+    from ..core.minieval import evaluate as _ev, CannotEvaluate as _CE
+    b_loc = A.local_bindings(f.node)
     for w, want in WHICH_PRIORITY.items():
-        ke = KnobEval(f.node, {"which": w})
+        knobs = {"which": w}
+        # flags derived from the option alone (`by_magnitude = which in ["SM", "LM"]`) are knobs as well
+        for nm_, ds_ in b_loc.items():
+            if len(ds_) == 1 and ds_[0][1] is not None and ds_[0][2] == "assign" and {x.id for x in ast.walk(ds_[0][1]) if isinstance(x, ast.Name)} <= {"which"}:
+                try:
+                    val_ = _ev(ds_[0][1], {"which": w})
+                except _CE:
+                    continue
+                except Exception:
+                    continue
+                if isinstance(val_, (bool, str, int)):
+                    knobs[nm_] = val_
+        ke = KnobEval(f.node, knobs)
         e = ke.expand(calls[0].args[0], st)
         got = _key_normal_form(e)
         chk.verdict(rule, (f, calls[0]), f"eigh_with_truncation(which='{w}'): mask computed for `{A.short(e, 40)}`", True if got == want else False,
